@@ -122,6 +122,12 @@ def showFut : Fut Nat → String
   | .cancelled => "c"
   | .batch rs => "b[" ++ String.intercalate ";" (rs.map showRes) ++ "]"
 
+/-- the variant the generated facts describe (`rejectBool = false`: the tree before F07) -/
+def factsVariant (rejectBool : Bool) : Variant :=
+  { rejectBool := rejectBool, lookupGuard := Facts.C01.lookupGuarded,
+    sortGuard := Facts.C01.sortGuarded, failDrawsSingle := Facts.C01.failDrawsSingle,
+    failDrawsBatch := Facts.C01.failDrawsBatch }
+
 def handle (line : String) : String :=
   match (line.splitOn " ").filter (· ≠ "") with
   | hd :: ops =>
@@ -135,9 +141,8 @@ def handle (line : String) : String :=
     match parts.take 2, start? with
     | [v, p], some start =>
       let vr? : Option Variant :=
-        if v == "R" then some (repaired Facts.C01.lookupGuarded Facts.C01.sortGuarded)
-        else if v == "P" then some { pinned with lookupGuard := Facts.C01.lookupGuarded,
-                                                 sortGuard := Facts.C01.sortGuarded }
+        if v == "R" then some (factsVariant true)
+        else if v == "P" then some (factsVariant false)
         else none
       let proto? : Option (Option Proto) :=
         if p == "auto" then some none else (parseProto p).map some
@@ -175,7 +180,7 @@ def handleSess (line : String) : String :=
         if p == "auto" then some none else (parseProto p).map some
       match proto?, st.toNat?, ops.mapM parseSOp with
       | some proto, some start, some ops =>
-          let vr := repaired Facts.C01.lookupGuarded Facts.C01.sortGuarded
+          let vr := factsVariant true
           let s := srun vr Facts.C01.idStep (Sess.init proto start) ops
           String.intercalate " "
             ["#" ++ toString s.conn.pendingCount,
